@@ -281,7 +281,7 @@ Fixpoint sort_ev (l : list event) : list event :=
 (* ---------- ops ---------- *)
 Inductive op :=
 | FNew (f ty : Z) | FGetP (f : Z)
-| FAwaitCoro (f w mode : Z) | FAwaitSync (f t : Z) | FAwaitCb (f c : Z)
+| FAwaitCoro (f w mode : Z) | FAwaitSync (f t : Z) | FAwaitCb (f c : Z) | FAwaitCbA (f w cap : Z)
 | FResolve (f kind how s v : Z) | FDestroy (f : Z)
 | MTry (m : Z) | MLockCoro (m w mode : Z) | MLockSync (m t : Z) | MLockCb (m c : Z) | MUnlock (m how s : Z)
 | GNew (g k a : Z) | GNext (g how arg : Z) | GDestroy (g : Z)
@@ -312,6 +312,23 @@ Definition after_start (coro : bool) (mode : Z) (st : state) (ev0 : list event) 
 Definition defer_start (st : state) (it : item) : state * cost :=
   let '(d1, c) := dq_push (dq st) in (addlive (setq st (rq st ++ [it]) d1) 1, c).
 
+Definition await_coro_step (coro heap : bool) (st : state) (f w mode : Z) : state * obs :=
+      let x := getf st f in
+      if inr f NF && mode_ok coro mode && ((f_st x =? 2) || (f_st x =? 3)) then
+        if mode =? 2 then
+          let '(st1, c) := defer_start st (2, w, f) in
+          (st1, mkObs 0 0 1 (frame_new heap) c0 c [])
+        else if f_st x =? 3 then
+          (* await_ready: the coroutine reports and returns at once: frame allocated and freed *)
+          let '(st1, ev, c, k) := after_start coro mode st [(w, f_out x, f_val x)] in
+          (st1, mkObs 0 0 0 (cadd (frame_new heap) (frames_freed heap (k + 1))) c0 c ev)
+        else
+          let st0' := addlive (setf st f (mkFut 2 (f_ty x) 0 0 ((0, w) :: f_chain x))) 1 in
+          let '(st1, ev, c, k) := after_start coro mode st0' [] in
+          (st1, mkObs 0 0 0 (cadd (frame_new heap) (frames_freed heap k)) c0 c ev)
+      else (st, rejected)
+.
+
 (* the reads a handler starts itself: each completes synchronously with the next value *)
 Fixpoint rearm_events (k v : Z) (r : nat) : list event :=
   match r with O => [] | S j => (3000 + k, 0, v + 1) :: rearm_events k (v + 1) j end.
@@ -333,21 +350,14 @@ Definition step (coro heap : bool) (st : state) (x : op) : state * obs :=
       if inr f NF && (f_st (getf st f) =? 2)
       then (st, mkObs 0 1 0 c0 c0 c0 [])
       else (st, rejected)
-  | FAwaitCoro f w mode =>
-      let x := getf st f in
-      if inr f NF && mode_ok coro mode && ((f_st x =? 2) || (f_st x =? 3)) then
-        if mode =? 2 then
-          let '(st1, c) := defer_start st (2, w, f) in
-          (st1, mkObs 0 0 1 (frame_new heap) c0 c [])
-        else if f_st x =? 3 then
-          (* await_ready: the coroutine reports and returns at once: frame allocated and freed *)
-          let '(st1, ev, c, k) := after_start coro mode st [(w, f_out x, f_val x)] in
-          (st1, mkObs 0 0 0 (cadd (frame_new heap) (frames_freed heap (k + 1))) c0 c ev)
-        else
-          let st0' := addlive (setf st f (mkFut 2 (f_ty x) 0 0 ((0, w) :: f_chain x))) 1 in
-          let '(st1, ev, c, k) := after_start coro mode st0' [] in
-          (st1, mkObs 0 0 0 (cadd (frame_new heap) (frames_freed heap k)) c0 c ev)
-      else (st, rejected)
+  | FAwaitCoro f w mode => await_coro_step coro heap st f w mode
+  | FAwaitCbA f w cap =>
+      (* callback_await<future<T>&>(callback, fut) / callback_await_alloc(storage, callback, fut) (callback_awaiter.h): the
+         library wraps the callback into an async<void> coroutine that co_awaits the future and detaches it, i.e. a
+         coroutine waiter whose start is immediate in normal mode and queued in coroutine mode; the closure of the
+         callback (cap: 0 trivially copyable capture, 1 a small struct with a user-provided copy constructor, 2 a
+         captured promise) lives in that frame: one frame (none under a non-heap storage), nothing else *)
+      if inr cap 3 then await_coro_step coro heap st f w (if coro then 2 else 0) else (st, rejected)
   | FAwaitSync f t =>
       let x := getf st f in
       if inr f NF && inr t NH && negb (nth (n t) (hbusy st) true) && ((f_st x =? 2) || (f_st x =? 3)) then
@@ -437,13 +447,18 @@ Definition step (coro heap : bool) (st : state) (x : op) : state * obs :=
       then (addlive (setg st g (Some (0, k, a))) 1, mkObs 0 0 0 (frame_new heap) c0 c0 [])
       else (st, rejected)
   | GNext g how arg =>
-      (* how mod 3: 0 next(arg) as bool, 1 gen(arg) as future, 2 co_await next(arg); how < 3: the argument is a variable
-         (passed by reference), how >= 3: it is a temporary.  Same cost, same values. *)
-      if inr g NG && inr how 6 && (inr (how mod 3) 2 || ((how mod 3 =? 2) && coro)) then
+      (* how 0..5: how mod 3 = 0 next(arg) as bool, 1 gen(arg) as future, 2 co_await next(arg); how < 3: the argument is a
+         variable (passed by reference), how >= 3: it is a temporary.  how 6 / 7: through the generator's iterator
+         (iterator.h): `it = gen.begin()` for the first value, afterwards `++it` (6) or `it++` (7, the proxy holding the
+         previous value is discarded); how 8: `for (int v : gen)` over all remaining values (result: the last one).
+         Same cost (none), same values. *)
+      if inr g NG && inr how 9 && (inr (how mod 3) 2 || ((how mod 3 =? 2) && coro) || (6 <=? how)) then
         match nth (n g) (gens st) None with
         | None => (st, rejected)
         | Some (cur, k, a) =>
-            if cur <? k then (setg st g (Some (cur + 1, k, a)),
+            if (6 <=? how) && ((a =? 1) || ((how <? 8) && (k <? cur))) then (st, rejected)
+            else if how =? 8 then (setg st g (Some (k + 1, k, a)), mkObs 0 (if cur <? k then 100 * g + k else -1) 0 c0 c0 c0 [])
+            else if cur <? k then (setg st g (Some (cur + 1, k, a)),
                               mkObs 0 (100 * g + cur + 1 + (if a =? 1 then 1000 * arg else 0)) 0 c0 c0 c0 [])
             else if cur =? k then (setg st g (Some (cur + 1, k, a)), mkObs 0 (-1) 0 c0 c0 c0 [])
             else if how mod 3 =? 1 then (st, rejected)
@@ -504,6 +519,7 @@ Definition decode (l : list Z) : op :=
   | [6; f; kind; how; s; v] => FResolve f kind how s v
   | [7; f] => FDestroy f
   | [8; f] => PMove f
+  | [9; f; w; cap] => FAwaitCbA f w cap
   | [10; m] => MTry m
   | [11; m; w; mode] => MLockCoro m w mode
   | [12; m; t] => MLockSync m t
@@ -521,7 +537,7 @@ Definition decode (l : list Z) : op :=
 
 Definition encode_op (x : op) : list Z :=
   match x with
-  | FNew f ty => [1; f; ty] | FGetP f => [2; f] | PMove f => [8; f]
+  | FNew f ty => [1; f; ty] | FGetP f => [2; f] | PMove f => [8; f] | FAwaitCbA f w cap => [9; f; w; cap]
   | FAwaitCoro f w mode => [3; f; w; mode] | FAwaitSync f t => [4; f; t] | FAwaitCb f c => [5; f; c]
   | FResolve f kind how s v => [6; f; kind; how; s; v] | FDestroy f => [7; f]
   | MTry m => [10; m] | MLockCoro m w mode => [11; m; w; mode] | MLockSync m t => [12; m; t]
@@ -552,7 +568,7 @@ Definition al_run_dq (coro heap : bool) (ops : list (list Z)) : list (list Z) :=
 
 (* ---------- the property as a decidable predicate over an observed trace ---------- *)
 Definition frames_of (x : op) : Z :=
-  match x with FAwaitCoro _ _ _ => 1 | MLockCoro _ _ _ => 1 | GNew _ _ _ => 1 | _ => 0 end.
+  match x with FAwaitCoro _ _ _ => 1 | FAwaitCbA _ _ _ => 1 | MLockCoro _ _ _ => 1 | GNew _ _ _ => 1 | _ => 0 end.
 
 (* The only memory a suspend point may use: the documented heap array once it carries more than three handles
    (suspend_point.h:33).  It depends on handle counts alone: a suspend point that grew from empty to n handles. *)
